@@ -61,7 +61,8 @@ def build_demo(d, tag):
             p = os.path.join(work, f)
             if os.access(p, os.X_OK) and not f.endswith((".sh", ".py", ".cpp")) and os.path.isfile(p):
                 exe = "./" + f
-    return (rc == 0 and exe is not None), exe, work, out[-1500:]
+    # build.sh of some seeds also runs the demo (non-zero status with the patch): an executable is what counts
+    return (exe is not None), exe, work, out[-1500:]
 
 
 def run_demo(exe, work):
@@ -92,15 +93,26 @@ def main():
     report["demo_output_without_patch"] = out0[-300:]
     # --- patched: compiles, suite passes, demo fails
     sh("git apply %s" % patch, cwd=WT)
-    t = time.time()
-    rc, out = sh("nice -n 3 ninja -C %s/_build -j12 2>&1 | tail -5" % WT)
-    report["build_with_patch_ok"] = rc == 0 and "FAILED" not in out
-    report["build_s"] = round(time.time() - t)
-    failed, summary = run_suite()
-    base = baseline()
-    report["suite_summary_with_patch"] = summary
-    report["stable_tests_failing_with_patch"] = sorted(failed & base)
-    report["existing_tests_pass"] = report["build_with_patch_ok"] and not (failed & base)
+    prev = None
+    if "--reuse-suite" in sys.argv:
+        try:
+            prev = json.load(open(d + ".report.json.prev"))
+        except Exception:
+            prev = None
+    if prev and prev.get("existing_tests_pass") is not None and prev.get("repo_head") == head:
+        for k in ("build_with_patch_ok", "build_s", "suite_summary_with_patch", "stable_tests_failing_with_patch", "existing_tests_pass"):
+            report[k] = prev.get(k)
+        report["suite_reused_from_earlier_run_at_same_head"] = True
+    else:
+        t = time.time()
+        rc, out = sh("nice -n 3 ninja -C %s/_build -j12 2>&1 | tail -5" % WT)
+        report["build_with_patch_ok"] = rc == 0 and "FAILED" not in out
+        report["build_s"] = round(time.time() - t)
+        failed, summary = run_suite()
+        base = baseline()
+        report["suite_summary_with_patch"] = summary
+        report["stable_tests_failing_with_patch"] = sorted(failed & base)
+        report["existing_tests_pass"] = report["build_with_patch_ok"] and not (failed & base)
     ok, exe, work, blog = build_demo(d, "mut")
     if ok:
         p1, rc1, out1 = run_demo(exe, work)
